@@ -9,7 +9,7 @@ import Arc.Model.C12
     cycle <oracle>    RunMigrationCycle                            -> cycle=ok|cycle=crash  <state>
     obs               what is on disk / in SQLite / what a query returns -> <state> globs=<tiers> vis=<n>
 
-  oracle: string over o(k) f(ail) c(rash), "-" = empty.  -/
+  oracle: string over o(k) f(ail) c(rash) r(source read of the copy fails), "-" = empty.  -/
 open Arc.Proto Arc.C12
 
 structure DS where
@@ -22,7 +22,7 @@ def parseOracle (s : String) : Option (List Outcome) :=
   if s == "-" then some [] else
   s.toList.mapM fun c =>
     if c == 'o' then some Outcome.ok else if c == 'f' then some Outcome.fail
-    else if c == 'c' then some Outcome.crash else none
+    else if c == 'c' then some Outcome.crash else if c == 'r' then some Outcome.srcfail else none
 
 def b01 (b : Bool) : String := if b then "1" else "0"
 def tierStr : Tier → String | .hot => "hot" | .cold => "cold"
